@@ -57,6 +57,7 @@ ASSUMPTIONS = [
 ]
 LEANCHECK_MODULES = ["Y0.Model.CtfTr", "Y0.Props.C09"]
 EXHAUSTIVE = {"quick": False, "thorough": False}
+ESCALATED_TIER = "escalated"
 
 # ------------------------------------------------------------------------------------------------ encoding helpers
 
@@ -192,7 +193,7 @@ def _rand_malformed(rng):
 
 def cases(rng: random.Random, tier: str):
     out = [json.loads(json.dumps(c)) for c in CORPUS]
-    n_rand, n_mal = (2200, 300) if tier != "thorough" else (20000, 2000)
+    n_rand, n_mal = {"quick": (9000, 1000), "escalated": (22000, 2500)}.get(tier, (90000, 8000))
     for _ in range(n_rand):
         out.append(_rand_case(rng, 5 if rng.random() < 0.3 else 4))
     for _ in range(n_mal):
